@@ -177,24 +177,28 @@ def run_ceremony(case, col):
         viol(col, case, None, 'cosigner wallet sees no UTXO on its own multisig address after utxos_update', None, 'funded address')
         _close(wallets)
         return
-    u0 = sorted(utx, key=lambda u: (u['txid'], u['output_n']))[0]
+    us = sorted(utx, key=lambda u: (u['txid'], u['output_n']))
+    u0 = us[0]
+    spend = us[:2] if (case.get('two_inputs') and len(us) >= 2) else us[:1]
     wallet_env.reseed(rnd.getrandbits(30))
     try:
-        t = first.transaction_create([(dest, u0['value'] - 20000)], [(u0['txid'], u0['output_n'], u0['key_id'], u0['value'])], fee=20000)
+        t = first.transaction_create([(dest, sum(u['value'] for u in spend) - 20000)],
+                                     [(u['txid'], u['output_n'], u['key_id'], u['value']) for u in spend], fee=20000)
     except Exception as e:
         viol(col, case, None, 'transaction_create on cosigner wallet raised %r' % (e,), repr(e), None)
         _close(wallets)
         return
-    # redeem script carried by the input must be the reference script
-    op0 = (u0['txid'], u0['output_n'])
-    spk, value, ch, idx = prevs[op0]
-    want_redeem = ref.redeem(0, ch, idx)
-    try:
-        got_redeem = bytes(t.inputs[0].redeemscript)
-        if got_redeem != want_redeem:
-            viol(col, case, None, 'redeem script of the spending input is not the standard m-of-n script over the cosigner child keys', got_redeem.hex(), want_redeem.hex())
-    except Exception as e:
-        viol(col, case, None, 'reading redeemscript raised %r' % (e,), repr(e), None)
+    # redeem script carried by every input must be the reference script of the output it spends (inputs may be shuffled)
+    for li in t.inputs:
+        try:
+            opx = (bytes(li.prev_txid).hex(), li.output_n_int)
+            spk, value, ch, idx = prevs[opx]
+            want_redeem = ref.redeem(0, ch, idx)
+            got_redeem = bytes(li.redeemscript)
+            if got_redeem != want_redeem:
+                viol(col, case, None, 'redeem script of a spending input is not the standard m-of-n script over the cosigner child keys', got_redeem.hex(), want_redeem.hex())
+        except Exception as e:
+            viol(col, case, None, 'reading redeemscript raised %r' % (e,), repr(e), None)
     signed = set()
     partial_raw = False
     cur = t
@@ -237,7 +241,10 @@ def run_ceremony(case, col):
                      '%s: library verify() is True but the spend is invalid' % label, {'verify': lib_verify, 'steps': steps}, False)
             if valid and not lib_verify:
                 viol(col, case, None, '%s: spend is valid but library verify() is False' % label, {'verify': lib_verify, 'steps': steps}, True)
-            # try to send at every step: must be pushed iff valid
+            # try to send at every step (or, in 'send_at_end' ceremonies, only after the last signer - then more than m
+            # cosigners may have signed and the spend must still be valid): must be pushed iff valid
+            if case.get('send_at_end') and step < len(order) - 1:
+                continue
             send_exc = None
             try:
                 cur.send()
@@ -340,8 +347,13 @@ def run_shard(spec, col):
         order = idxs[:min(n, m + rnd.choice([0, 0, 1]))]
         if len(order) >= 2 and rnd.random() < 0.35:
             order.insert(1, order[0])
+        send_at_end = rnd.random() < 0.4
+        if send_at_end:
+            # everybody available signs before anybody tries to send: m .. n distinct signers
+            order = idxs[:rnd.randint(m, n)]
         case = {'cseed': '%d-%d-%d' % (spec['seed'], spec['shard'], k), 'n': n, 'm': m, 'wt': wt, 'network': network, 'n_wallets': n,
-                'order': order, 'handoffs': [rnd.choice(HANDOFFS) for _ in range(max(1, len(order) - 1))]}
+                'order': order, 'handoffs': [rnd.choice(HANDOFFS) for _ in range(max(1, len(order) - 1))],
+                'two_inputs': rnd.random() < 0.5, 'send_at_end': send_at_end}
         run_ceremony(case, col)
     if spec.get('big_agreement'):
         n = rnd.choice([7, 10, 15])
